@@ -2,7 +2,10 @@
 """Regenerate MANIFEST.json from engine/*.check.json (run after adding a check)."""
 import json, os, subprocess, sys
 sys.path.insert(0, os.path.dirname(os.path.abspath(__file__)))
-from checks import READY as CHECKS
+from checks import READY as _READY
+_rel = json.load(open(os.path.join(os.path.dirname(os.path.dirname(os.path.abspath(__file__))), 'engine', 'released.json')))
+# a check is listed only after its result on the unchanged tree has been triaged centrally (engine/released.json)
+CHECKS = {k: v for k, v in _READY.items() if k in _rel}
 VERIF = os.path.dirname(os.path.dirname(os.path.abspath(__file__)))
 
 props = [json.loads(l) for l in open(os.path.join(VERIF, "properties.jsonl")) if l.strip()]
